@@ -106,6 +106,18 @@ def e2e_monitor(case, il, sl):
     sh, ch, mode, observe = int(op[1]), int(op[2]), op[3], int(op[4])
     h = min(sh, ch) * 1000
     d = {l.split()[0]: l.split()[1:] for l in il if l and not l.startswith("#")}
+    if "openok-delay=60000" in case.ops[0]:
+        # the server goes silent after Tune and never sends OpenOk: the interval is negotiated by
+        # then, so the client sends its heartbeats and gives up after 2h of silence - it never hangs
+        o = d.get("open", [])
+        if o[:1] == ["hung"]:
+            return ("the server went silent between Tune and OpenOk (heartbeat %d ms negotiated): the attempt never returns" % h, "c17-handshake-hang")
+        kv = dict(x.split("=") for x in o[2:] if "=" in x)
+        if o[:2] != ["err", "MissedServerHeartbeats"]:
+            return ("silent server after Tune: expected MissedServerHeartbeats, got %s" % " ".join(o), "c17-handshake-kind")
+        if not (2 * h - 60 <= int(kv.get("after-ms", 0)) <= 2 * h + 1500) or int(kv.get("heartbeats-sent", 0)) < 1:
+            return ("silent server after Tune (h = %d ms): gave up after %s ms having sent %s heartbeats" % (h, kv.get("after-ms"), kv.get("heartbeats-sent")), "c17-handshake-timing")
+        return None
     if "opened" not in d:
         return ("connection did not open: %s" % il[:2], "c17-e2e-open")
     beats = [int(x) for x in d.get("beats", [])]
@@ -132,6 +144,10 @@ def e2e_monitor(case, il, sl):
             return ("declared dead after %d ms of silence, 2h = %d ms" % (t, 2 * h), "c17-late")
         if "MissedServerHeartbeats" not in close:
             return ("silent server: close reports %r" % close, "c17-kind")
+    if mode == "stall-io":
+        if death != ["none"]:
+            return ("the I/O thread was stalled for 2.3 h while the server kept sending; when it resumed it declared the server dead (%s) although the server's bytes were waiting in the socket" % close, "c17-false-death")
+        return None
     if mode == "dribble":
         if death != ["none"]:
             return ("the server sent a byte every 0.4 h (a frame completing only every 3.2 h) yet the connection was declared dead after %s ms: inbound bytes must count as liveness" % death[1], "c17-false-death")
@@ -156,7 +172,9 @@ def gen_e2e(tier, seed):
              # a slow OpenOk (1.5 intervals after Tune): the timers run afterwards as announced
              Case("e12", ["run 1 1 chatty 3300 openok-delay=1500"], {"keep_prefix": 0}), Case("e13", ["run 1 1 silent 3600 openok-delay=1500"], {"keep_prefix": 0}),
              # a connection_timeout is about the handshake only: afterwards silence is judged by the heartbeats alone
-             Case("e14", ["run 0 0 silent 1500 timeout=300"], {"keep_prefix": 0}), Case("e15", ["run 3 3 silent 1500 timeout=300"], {"keep_prefix": 0})]
+             Case("e14", ["run 0 0 silent 1500 timeout=300"], {"keep_prefix": 0}), Case("e15", ["run 3 3 silent 1500 timeout=300"], {"keep_prefix": 0}),
+             # silence between Tune and OpenOk; an I/O thread stalled while the server keeps sending
+             Case("e16", ["run 1 1 silent 500 openok-delay=60000"], {"keep_prefix": 0}), Case("e17", ["run 1 1 stall-io 4200"], {"keep_prefix": 0})]
     if tier != "quick":
         cases += [Case("e5", ["run 2 2 silent 6000"], {"keep_prefix": 0}), Case("e6", ["run 2 3 chatty 12500"], {"keep_prefix": 0}),
                   Case("e7", ["run 1 1 chatty 6500"], {"keep_prefix": 0}), Case("e9", ["run 2 2 dribble 9000"], {"keep_prefix": 0})]
